@@ -32,15 +32,18 @@ impl Kind {
     fn build<B: Fld>(&self, col: usize) -> Assertion<B> {
         match *self {
             Kind::Single(s) => Assertion::single(col, s, B::mk(1000 + s as u128)),
-            Kind::Periodic(f, st) => Assertion::periodic(col, f, st, B::mk(7 + f as u128)),
-            Kind::Sequence(f, st, cnt) => Assertion::sequence(col, f, st, (0..cnt).map(|k| B::mk((k * k + 3 * f + 11) as u128)).collect()),
+            Kind::Periodic(f, st) => Assertion::periodic(col, f, st, B::mk(self.value(0))),
+            Kind::Sequence(f, st, cnt) => {
+                let _ = (f, st);
+                Assertion::sequence(col, f, st, (0..cnt).map(|k| B::mk(self.value(k))).collect())
+            },
         }
     }
     fn value(&self, k: usize) -> u128 {
         match *self {
             Kind::Single(s) => 1000 + s as u128,
-            Kind::Periodic(f, _) => 7 + f as u128,
-            Kind::Sequence(f, _, _) => (k * k + 3 * f + 11) as u128,
+            Kind::Periodic(f, st) => 50_000 + (f * 257 + st) as u128,
+            Kind::Sequence(f, st, _) => 900_000 + (k * k * 31 + 3 * f + 1009 * st) as u128,
         }
     }
 }
@@ -52,8 +55,11 @@ fn all_assertions(n: usize) -> Vec<Kind> {
     while st <= n {
         for f in 0..st {
             v.push(Kind::Periodic(f, st));
-            if n / st >= 2 {
-                v.push(Kind::Sequence(f, st, n / st));
+            // n / st values; the one-value sequence (stride n) must behave as the single assertion on its first step
+            v.push(Kind::Sequence(f, st, n / st));
+            // a one-value sequence with ANY stride is the documented alternative spelling of the single assertion
+            if n / st != 1 {
+                v.push(Kind::Sequence(f, st, 1));
             }
         }
         st *= 2;
@@ -82,20 +88,28 @@ fn groups_ok_in<B: Fld>(groups: &[air::BoundaryConstraintGroup<B, B>], n: usize,
     let zero_sets: Vec<Vec<usize>> = groups.iter().map(|gr| (0..n).filter(|i| gr.divisor().evaluate_at(B::mk(powm(g, *i as u128, p))).int() == 0).collect()).collect();
     for (col, kind) in asserted.iter() {
         let steps = kind.steps(n);
+        // some constraint on this column must reproduce the asserted values AND sit under a divisor vanishing on
+        // exactly the asserted steps (two assertions may assert the same value: a constraint that merely fits the
+        // values of another assertion does not count either way)
         let mut found = false;
+        let mut wrong_divisor: Option<Vec<usize>> = None;
         for (gi, gr) in groups.iter().enumerate() {
             for c in gr.constraints().iter().filter(|c| c.column() == *col) {
                 let fits = steps.iter().enumerate().all(|(k, s)| c.evaluate_at(B::mk(powm(g, *s as u128, p)), B::mk(kind.value(k))).int() == 0);
                 if fits {
-                    if zero_sets[gi] != steps {
-                        return Err(format!("the constraint for {:?} on column {} is divided by a divisor vanishing on {:?} instead of its own steps", kind, col, zero_sets[gi]));
+                    if zero_sets[gi] == steps {
+                        found = true;
+                    } else {
+                        wrong_divisor = Some(zero_sets[gi].clone());
                     }
-                    found = true;
                 }
             }
         }
         if !found {
-            return Err(format!("no constraint reproduces the values of {:?} on column {}", kind, col));
+            return Err(match wrong_divisor {
+                Some(z) => format!("the constraint for {:?} on column {} is divided by a divisor vanishing on {:?} instead of its own steps", kind, col, z),
+                None => format!("no constraint reproduces the values of {:?} on column {}", kind, col),
+            });
         }
     }
     Ok(())
